@@ -99,6 +99,9 @@ pub struct Behav {
     pub logs_after: u8,
     /// Panic synchronously inside the callback fn, before it returns its future.
     pub eager: bool,
+    /// Log lines emitted later, from outside the callback, inside a clone of its span
+    /// (like a task spawned `.in_current_span()`); vt only.
+    pub deferred_logs: u8,
 }
 
 impl Behav {
@@ -109,6 +112,7 @@ impl Behav {
         logs_before: 0,
         logs_after: 0,
         eager: false,
+        deferred_logs: 0,
     };
 }
 
@@ -498,6 +502,7 @@ impl Gen<'_> {
                 logs_before: if pct(&mut self.r, self.p.p_logs) { self.r.range(1, 2) as u8 } else { 0 },
                 logs_after: if pct(&mut self.r, self.p.p_logs) { self.r.range(0, 2) as u8 } else { 0 },
                 eager: fail && self.p.p_logs == 0 && self.r.chance(1, 4),
+                deferred_logs: if !fail && self.p.p_logs > 0 && self.r.chance(1, 6) { 1 } else { 0 },
             });
         }
         v
